@@ -41,6 +41,9 @@ Qed.
 Lemma validate_input_rejects x e : (x = NotArray \/ exists w, x = Arr w /\ w <> e) ->
   g_validate_input x (Some e) = Err ValueError.
 Proof. intros [->|[w [-> N]]]; simpl; zb. Qed.
+Lemma bad_rank_rejected n nf : g_sspor_predict true n BadRank = Err ValueError /\ g_sspor_score true nf BadRank = Err ValueError /\
+  g_sspor_recon_error true nf BadRank = Err ValueError.
+Proof. repeat split. Qed.
 
 Lemma sspor_consumers_reject nsens x : 
   (x = NotArray \/ exists w, x = Arr w /\ w <> nsens) -> g_sspor_predict true nsens x = Err ValueError.
